@@ -130,6 +130,11 @@ func clientPart(run *vkit.Run) {
 		if rerr != nil {
 			// an acceptable header was refused: not a property violation, but nothing was observed
 			run.Count("client_request_errors_on_good_header", 1)
+			if !ex.Reset {
+				// (a reset may discard the header in flight; anything else is unexpected)
+				run.Count("client_good_header_refused_unexpected", 1)
+				run.Sample(map[string]any{"client_request_error_on_good_header": w})
+			}
 			return
 		}
 		if hdr.PendingInstance != ex.Pending {
